@@ -20,6 +20,6 @@ sys.exit(1)
 PY
 ( cd "$d" && go build ./... ) || { echo BUILD-FAILED; exit 3; }
 for p in $props; do
-  out=$(/verif/bin/resverif check -p "$p" -repo "$d" -no-evidence 2>&1); r=$?
+  out=$(${RESVERIF:-/verif/bin/resverif} check -p "$p" -repo "$d" -no-evidence 2>&1); r=$?
   echo "== $p exit=$r $(echo "$out" | grep -E '^  (VIOLATION|UNDECIDED): ' | sort -u | tr '\n' ' ')"
 done
